@@ -15,7 +15,8 @@ def pre_h(cv, a, b) -> "real":
 
 @contract("pandora.aggregation.cbca.cbca_step_1", props=["C11"])
 def _(cv):
-    types(cv="f32[:,:]", result="f32[:,:]")
+    types(cv="f32[:,:]", result="r32[:,:]")
+    option(finite_locals=True)
     requires("finite_or_nan", all(not isinf(cv[a, b]) for a in range(cv.shape[0]) for b in range(cv.shape[1])))
     assigns()
     raises_never()
@@ -26,3 +27,291 @@ def _(cv):
               all(eq(step1[a, n_row_], 0.0) for a in range(col)))
     invariant(2, all(eq(step1[col, b], pre_h(cv, col, b)) for b in range(row)),
               eq(step1[col, n_row_], 0.0))
+
+
+# ------------------------------------------------------------------------------------------------ cross_support
+# arms: longest run of pixels whose intensity differs from the anchor by less than `tau`, at most L-1 pixels, inside
+# the image; masked pixels are +inf in `img` so the run stops there; one-pixel minimum when the neighbour exists and is
+# valid (property statement C11).
+
+@spec
+def run_l(img, a, b, j, L, tau) -> "int":
+    return 0 if (j >= L or b - j < 0 or not (abs(img[a, b] - img[a, b - j]) < tau)) else 1 + run_l(img, a, b, j + 1, L, tau)
+
+
+@spec
+def run_r(img, a, b, j, L, tau) -> "int":
+    return 0 if (j >= L or b + j >= img.shape[1] or not (abs(img[a, b] - img[a, b + j]) < tau)) else 1 + run_r(img, a, b, j + 1, L, tau)
+
+
+@spec
+def run_u(img, a, b, j, L, tau) -> "int":
+    return 0 if (j >= L or a - j < 0 or not (abs(img[a, b] - img[a - j, b]) < tau)) else 1 + run_u(img, a, b, j + 1, L, tau)
+
+
+@spec
+def run_d(img, a, b, j, L, tau) -> "int":
+    return 0 if (j >= L or a + j >= img.shape[0] or not (abs(img[a, b] - img[a + j, b]) < tau)) else 1 + run_d(img, a, b, j + 1, L, tau)
+
+
+@spec
+def arm_l(img, a, b, L, tau) -> "int":
+    return 0 if not isfinite(img[a, b]) else max(run_l(img, a, b, 1, L, tau), 1 if (b >= 1 and isfinite(img[a, b - 1])) else 0)
+
+
+@spec
+def arm_r(img, a, b, L, tau) -> "int":
+    return 0 if not isfinite(img[a, b]) else max(run_r(img, a, b, 1, L, tau), 1 if (b + 1 < img.shape[1] and isfinite(img[a, b + 1])) else 0)
+
+
+@spec
+def arm_u(img, a, b, L, tau) -> "int":
+    return 0 if not isfinite(img[a, b]) else max(run_u(img, a, b, 1, L, tau), 1 if (a >= 1 and isfinite(img[a - 1, b])) else 0)
+
+
+@spec
+def arm_d(img, a, b, L, tau) -> "int":
+    return 0 if not isfinite(img[a, b]) else max(run_d(img, a, b, 1, L, tau), 1 if (a + 1 < img.shape[0] and isfinite(img[a + 1, b])) else 0)
+
+
+@contract("pandora.aggregation.cbca.cross_support", props=["C11"])
+def _(image, len_arms, intensity):
+    types(image="f32[:,:]", len_arms="int", intensity="float", result="i16[:,:,:]")
+    requires("no_nan", all(not isnan(image[a, b]) for a in range(image.shape[0]) for b in range(image.shape[1])))
+    requires("params", len_arms >= 1, isfinite(intensity), intensity > 0)
+    assigns()
+    raises_never()
+    ensures("shape", result.shape[0] == image.shape[0] and result.shape[1] == image.shape[1] and result.shape[2] == 4)
+    ensures("left", all(result[a, b, 0] == arm_l(image, a, b, len_arms, intensity)
+                        for a in range(image.shape[0]) for b in range(image.shape[1])))
+    ensures("right", all(result[a, b, 1] == arm_r(image, a, b, len_arms, intensity)
+                         for a in range(image.shape[0]) for b in range(image.shape[1])))
+    ensures("top", all(result[a, b, 2] == arm_u(image, a, b, len_arms, intensity)
+                       for a in range(image.shape[0]) for b in range(image.shape[1])))
+    ensures("bottom", all(result[a, b, 3] == arm_d(image, a, b, len_arms, intensity)
+                          for a in range(image.shape[0]) for b in range(image.shape[1])))
+    invariant(1, all(cross[a, b, 0] == arm_l(image, a, b, len_arms, intensity) for a in range(col) for b in range(n_row_)),
+              all(cross[a, b, 1] == arm_r(image, a, b, len_arms, intensity) for a in range(col) for b in range(n_row_)),
+              all(cross[a, b, 2] == arm_u(image, a, b, len_arms, intensity) for a in range(col) for b in range(n_row_)),
+              all(cross[a, b, 3] == arm_d(image, a, b, len_arms, intensity) for a in range(col) for b in range(n_row_)))
+    invariant(2, all(cross[col, b, 0] == arm_l(image, col, b, len_arms, intensity) for b in range(row)),
+              all(cross[col, b, 1] == arm_r(image, col, b, len_arms, intensity) for b in range(row)),
+              all(cross[col, b, 2] == arm_u(image, col, b, len_arms, intensity) for b in range(row)),
+              all(cross[col, b, 3] == arm_d(image, col, b, len_arms, intensity) for b in range(row)))
+    invariant(3, left_len >= 0, left_len == row - 1 - left,
+              run_l(image, col, row, 1, len_arms, intensity) == left_len + run_l(image, col, row, row - left, len_arms, intensity))
+    after(3, left_len == run_l(image, col, row, 1, len_arms, intensity), 0 <= left, left <= row,
+          left_len >= 1 or (left == row - 1 and row >= 1 and len_arms >= 2) or (left == row and (row == 0 or len_arms == 1)))
+    invariant(4, right_len >= 0, right_len == right - row - 1,
+              run_r(image, col, row, 1, len_arms, intensity) == right_len + run_r(image, col, row, right - row, len_arms, intensity))
+    after(4, right_len == run_r(image, col, row, 1, len_arms, intensity), row <= right, right < n_row_,
+          right_len >= 1 or (right == row + 1 and row + 1 < n_row_ and len_arms >= 2) or (right == row and (row + 1 >= n_row_ or len_arms == 1)))
+    invariant(5, up_len >= 0, up_len == col - 1 - up_col,
+              run_u(image, col, row, 1, len_arms, intensity) == up_len + run_u(image, col, row, col - up_col, len_arms, intensity))
+    after(5, up_len == run_u(image, col, row, 1, len_arms, intensity), 0 <= up_col, up_col <= col,
+          up_len >= 1 or (up_col == col - 1 and col >= 1 and len_arms >= 2) or (up_col == col and (col == 0 or len_arms == 1)))
+    invariant(6, bot_len >= 0, bot_len == bot - col - 1,
+              run_d(image, col, row, 1, len_arms, intensity) == bot_len + run_d(image, col, row, bot - col, len_arms, intensity))
+    after(6, bot_len == run_d(image, col, row, 1, len_arms, intensity), col <= bot, bot < n_col_,
+          bot_len >= 1 or (bot == col + 1 and col + 1 < n_col_ and len_arms >= 2) or (bot == col and (col + 1 >= n_col_ or len_arms == 1)))
+
+
+@sampler("pandora.aggregation.cbca.cross_support")
+def _(rng):
+    h, w = int(rng.integers(1, 5)), int(rng.integers(1, 6))
+    vals = np.array([0.0, 1.0, 10.0, 50.0, np.inf], dtype=np.float32)
+    return {"image": vals[rng.integers(0, len(vals), size=(h, w))], "len_arms": np.int16(rng.integers(1, 5)),
+            "intensity": np.float32([5.0, 30.0][rng.integers(0, 2)])}
+
+
+# ------------------------------------------------------------------------------------------------ steps 2..4
+@spec
+def comb(cl, cr, a, x, xr, side) -> "int":
+    # combined arm: the shorter of the left-image arm at x and the right-image arm at the corresponding column xr
+    return min(cl[a, x, side], cr[a, xr, side])
+
+
+@spec
+def wrap(i, n) -> "int":
+    # index -1 designates the extra zero column/row (numba wrap-around)
+    return i if i >= 0 else i + n
+
+
+@contract("pandora.aggregation.cbca.cbca_step_2", props=["C11"])
+def _(step1, cross_left, cross_right, range_col, range_col_right):
+    # step1..step4 / sum2 / sum4 hold finite values only (NaN costs were skipped by step 1): finite-real arrays
+    types(step1="r32[:,:]", cross_left="i16[:,:,:]", cross_right="i16[:,:,:]", range_col="i64[:]", range_col_right="i64[:]",
+          result=("r32[:,:]", "r32[:,:]"))
+    option(finite_locals=True)
+    requires("shapes", step1.shape[1] >= 1, cross_left.shape[0] == step1.shape[0], cross_left.shape[1] == step1.shape[1] - 1,
+             cross_left.shape[2] == 4, cross_right.shape[0] == step1.shape[0], cross_right.shape[2] == 4,
+             range_col.shape[0] == range_col_right.shape[0])
+    requires("columns", all(0 <= range_col[k] and range_col[k] < step1.shape[1] - 1 and 0 <= range_col_right[k]
+                            and range_col_right[k] < cross_right.shape[1] for k in range(range_col.shape[0])))
+    # what the only caller establishes: the listed columns are a contiguous run (np.where over an arange)
+    requires("contiguous", all(range_col[k] == range_col[0] + k for k in range(range_col.shape[0])))
+    requires("arms_left", all(0 <= cross_left[a, b, 0] and cross_left[a, b, 0] <= b and 0 <= cross_left[a, b, 1]
+                              and b + cross_left[a, b, 1] <= step1.shape[1] - 2
+                              for a in range(cross_left.shape[0]) for b in range(cross_left.shape[1])))
+    requires("arms_right", all(0 <= cross_right[a, b, 0] and 0 <= cross_right[a, b, 1]
+                               for a in range(cross_right.shape[0]) for b in range(cross_right.shape[1])))
+    assigns()
+    raises_never()
+    ensures("shape", result[0].shape[0] == step1.shape[0] and result[0].shape[1] == step1.shape[1] - 1
+            and result[1].shape[0] == step1.shape[0] and result[1].shape[1] == step1.shape[1] - 1)
+    ensures("listed", all(eq(result[0][a, range_col[k]],
+                             step1[a, range_col[k] + comb(cross_left, cross_right, a, range_col[k], range_col_right[k], 1)]
+                             - step1[a, wrap(range_col[k] - comb(cross_left, cross_right, a, range_col[k], range_col_right[k], 0) - 1, step1.shape[1])])
+                          for a in range(step1.shape[0]) for k in range(range_col.shape[0])))
+    ensures("listed_count", all(eq(result[1][a, range_col[k]],
+                                   comb(cross_left, cross_right, a, range_col[k], range_col_right[k], 1)
+                                   + comb(cross_left, cross_right, a, range_col[k], range_col_right[k], 0))
+                                for a in range(step1.shape[0]) for k in range(range_col.shape[0])))
+    ensures("unlisted", all(implies(range_col.shape[0] == 0 or b < range_col[0] or b >= range_col[0] + range_col.shape[0],
+                                    eq(result[0][a, b], 0.0) and eq(result[1][a, b], 0.0))
+                            for a in range(step1.shape[0]) for b in range(step1.shape[1] - 1)))
+    invariant(1, all(eq(step2[a, range_col[k]],
+                        step1[a, range_col[k] + comb(cross_left, cross_right, a, range_col[k], range_col_right[k], 1)]
+                        - step1[a, wrap(range_col[k] - comb(cross_left, cross_right, a, range_col[k], range_col_right[k], 0) - 1, step1.shape[1])])
+                     for a in range(col) for k in range(range_col.shape[0])),
+              all(eq(sum_step2[a, range_col[k]], comb(cross_left, cross_right, a, range_col[k], range_col_right[k], 1)
+                     + comb(cross_left, cross_right, a, range_col[k], range_col_right[k], 0))
+                  for a in range(col) for k in range(range_col.shape[0])),
+              all(implies(range_col.shape[0] == 0 or b < range_col[0] or b >= range_col[0] + range_col.shape[0],
+                          eq(step2[a, b], 0.0) and eq(sum_step2[a, b], 0.0))
+                  for a in range(col) for b in range(step1.shape[1] - 1)))
+    invariant(2, all(eq(step2[col, range_col[k]],
+                        step1[col, range_col[k] + comb(cross_left, cross_right, col, range_col[k], range_col_right[k], 1)]
+                        - step1[col, wrap(range_col[k] - comb(cross_left, cross_right, col, range_col[k], range_col_right[k], 0) - 1, step1.shape[1])])
+                     for k in range(row)),
+              all(eq(sum_step2[col, range_col[k]], comb(cross_left, cross_right, col, range_col[k], range_col_right[k], 1)
+                     + comb(cross_left, cross_right, col, range_col[k], range_col_right[k], 0)) for k in range(row)),
+              all(implies(row == 0 or b < range_col[0] or b >= range_col[0] + row, eq(step2[col, b], 0.0) and eq(sum_step2[col, b], 0.0))
+                  for b in range(step1.shape[1] - 1)))
+
+
+@spec
+def pre_v(s, a, b) -> "real":
+    # plain cumulative sum down axis 0: s[0,b] + ... + s[a,b]
+    return s[0, b] if a <= 0 else pre_v(s, a - 1, b) + s[a, b]
+
+
+@contract("pandora.aggregation.cbca.cbca_step_3", props=["C11"])
+def _(step2):
+    types(step2="r32[:,:]", result="r32[:,:]")
+    option(finite_locals=True)
+    requires("nonempty", step2.shape[0] >= 1)
+    assigns()
+    raises_never()
+    ensures("shape", result.shape[0] == step2.shape[0] + 1 and result.shape[1] == step2.shape[1])
+    ensures("prefix", all(eq(result[a, b], pre_v(step2, a, b)) for a in range(step2.shape[0]) for b in range(step2.shape[1])))
+    ensures("sentinel", all(eq(result[step2.shape[0], b], 0.0) for b in range(step2.shape[1])))
+    invariant(1, all(eq(step3[a, b], pre_v(step2, a, b)) for a in range(col) for b in range(n_row_)))
+    invariant(2, all(eq(step3[a, b], pre_v(step2, a, b)) for a in range(col) for b in range(n_row_)),
+              all(eq(step3[col, b], pre_v(step2, col, b)) for b in range(row)))
+
+
+@contract("pandora.aggregation.cbca.cbca_step_4", props=["C11"])
+def _(step3, sum2, cross_left, cross_right, range_col, range_col_right):
+    types(step3="r32[:,:]", sum2="r32[:,:]", cross_left="i16[:,:,:]", cross_right="i16[:,:,:]", range_col="i64[:]",
+          range_col_right="i64[:]", result=("r32[:,:]", "r32[:,:]"))
+    option(finite_locals=True)
+    requires("shapes", step3.shape[0] >= 1, sum2.shape[0] == step3.shape[0] - 1, sum2.shape[1] == step3.shape[1],
+             cross_left.shape[0] == step3.shape[0] - 1, cross_left.shape[1] == step3.shape[1], cross_left.shape[2] == 4,
+             cross_right.shape[0] == step3.shape[0] - 1, cross_right.shape[2] == 4, range_col.shape[0] == range_col_right.shape[0])
+    requires("columns", all(0 <= range_col[k] and range_col[k] < step3.shape[1] and 0 <= range_col_right[k]
+                            and range_col_right[k] < cross_right.shape[1] for k in range(range_col.shape[0])))
+    requires("contiguous", all(range_col[k] == range_col[0] + k for k in range(range_col.shape[0])))
+    requires("arms_left", all(0 <= cross_left[a, b, 2] and cross_left[a, b, 2] <= a and 0 <= cross_left[a, b, 3]
+                              and a + cross_left[a, b, 3] <= step3.shape[0] - 2
+                              for a in range(cross_left.shape[0]) for b in range(cross_left.shape[1])))
+    requires("arms_right", all(0 <= cross_right[a, b, 2] and 0 <= cross_right[a, b, 3]
+                               for a in range(cross_right.shape[0]) for b in range(cross_right.shape[1])))
+    assigns()
+    raises_never()
+    ensures("shape", result[0].shape[0] == step3.shape[0] - 1 and result[0].shape[1] == step3.shape[1]
+            and result[1].shape[0] == step3.shape[0] - 1 and result[1].shape[1] == step3.shape[1])
+    ensures("listed", all(eq(result[0][a, range_col[k]],
+                             step3[a + comb(cross_left, cross_right, a, range_col[k], range_col_right[k], 3), range_col[k]]
+                             - step3[wrap(a - comb(cross_left, cross_right, a, range_col[k], range_col_right[k], 2) - 1, step3.shape[0]), range_col[k]])
+                          for a in range(step3.shape[0] - 1) for k in range(range_col.shape[0])))
+    ensures("listed_count", all(eq(result[1][a, range_col[k]],
+                                   sum2[a, range_col[k]]
+                                   + (comb(cross_left, cross_right, a, range_col[k], range_col_right[k], 2)
+                                      + comb(cross_left, cross_right, a, range_col[k], range_col_right[k], 3))
+                                   + np.sum(sum2[a - comb(cross_left, cross_right, a, range_col[k], range_col_right[k], 2): a, range_col[k]])
+                                   + np.sum(sum2[a + 1: a + comb(cross_left, cross_right, a, range_col[k], range_col_right[k], 3) + 1, range_col[k]]))
+                                for a in range(step3.shape[0] - 1) for k in range(range_col.shape[0])))
+    ensures("unlisted", all(implies(range_col.shape[0] == 0 or b < range_col[0] or b >= range_col[0] + range_col.shape[0],
+                                    eq(result[0][a, b], 0.0) and eq(result[1][a, b], sum2[a, b]))
+                            for a in range(step3.shape[0] - 1) for b in range(step3.shape[1])))
+    invariant(1, all(eq(step4[a, range_col[k]],
+                        step3[a + comb(cross_left, cross_right, a, range_col[k], range_col_right[k], 3), range_col[k]]
+                        - step3[wrap(a - comb(cross_left, cross_right, a, range_col[k], range_col_right[k], 2) - 1, step3.shape[0]), range_col[k]])
+                     for a in range(col) for k in range(range_col.shape[0])),
+              all(eq(sum4[a, range_col[k]],
+                     sum2[a, range_col[k]]
+                     + (comb(cross_left, cross_right, a, range_col[k], range_col_right[k], 2)
+                        + comb(cross_left, cross_right, a, range_col[k], range_col_right[k], 3))
+                     + np.sum(sum2[a - comb(cross_left, cross_right, a, range_col[k], range_col_right[k], 2): a, range_col[k]])
+                     + np.sum(sum2[a + 1: a + comb(cross_left, cross_right, a, range_col[k], range_col_right[k], 3) + 1, range_col[k]]))
+                  for a in range(col) for k in range(range_col.shape[0])),
+              all(implies(range_col.shape[0] == 0 or b < range_col[0] or b >= range_col[0] + range_col.shape[0],
+                          eq(step4[a, b], 0.0) and eq(sum4[a, b], sum2[a, b]))
+                  for a in range(col) for b in range(step3.shape[1])),
+              all(eq(sum4[a, b], sum2[a, b]) for a in range(col, step3.shape[0] - 1) for b in range(step3.shape[1])))
+    invariant(2, all(eq(step4[col, range_col[k]],
+                        step3[col + comb(cross_left, cross_right, col, range_col[k], range_col_right[k], 3), range_col[k]]
+                        - step3[wrap(col - comb(cross_left, cross_right, col, range_col[k], range_col_right[k], 2) - 1, step3.shape[0]), range_col[k]])
+                     for k in range(row)),
+              all(eq(sum4[col, range_col[k]],
+                     sum2[col, range_col[k]]
+                     + (comb(cross_left, cross_right, col, range_col[k], range_col_right[k], 2)
+                        + comb(cross_left, cross_right, col, range_col[k], range_col_right[k], 3))
+                     + np.sum(sum2[col - comb(cross_left, cross_right, col, range_col[k], range_col_right[k], 2): col, range_col[k]])
+                     + np.sum(sum2[col + 1: col + comb(cross_left, cross_right, col, range_col[k], range_col_right[k], 3) + 1, range_col[k]]))
+                  for k in range(row)),
+              all(implies(row == 0 or b < range_col[0] or b >= range_col[0] + row, eq(step4[col, b], 0.0) and eq(sum4[col, b], sum2[col, b]))
+                  for b in range(step3.shape[1])))
+
+
+@sampler("pandora.aggregation.cbca.cbca_step_2")
+def _(rng):
+    from pandora.aggregation.cbca import cross_support
+    h, w = int(rng.integers(1, 5)), int(rng.integers(1, 7))
+    vals = np.array([0.0, 1.0, 10.0, 50.0, np.inf], dtype=np.float32)
+    L = np.int16(rng.integers(1, 5))
+    cl = cross_support(vals[rng.integers(0, 5, size=(h, w))], L, np.float32(30.0))
+    wr = int(rng.integers(1, 7))
+    cr = cross_support(vals[rng.integers(0, 5, size=(h, wr))], L, np.float32(30.0))
+    d = int(rng.integers(-3, 4))
+    cols = np.arange(w)
+    ok = (cols + d >= 0) & (cols + d < wr)
+    step1 = np.zeros((h, w + 1), dtype=np.float32)
+    step1[:, :w] = np.cumsum(rng.integers(0, 5, size=(h, w)), axis=1)
+    return {"step1": step1, "cross_left": cl, "cross_right": cr, "range_col": cols[ok].astype(np.int64),
+            "range_col_right": (cols[ok] + d).astype(np.int64)}
+
+
+@sampler("pandora.aggregation.cbca.cbca_step_3")
+def _(rng):
+    h, w = int(rng.integers(1, 5)), int(rng.integers(0, 6))
+    return {"step2": rng.integers(-3, 9, size=(h, w)).astype(np.float32)}
+
+
+@sampler("pandora.aggregation.cbca.cbca_step_4")
+def _(rng):
+    from pandora.aggregation.cbca import cross_support
+    h, w = int(rng.integers(1, 6)), int(rng.integers(1, 6))
+    vals = np.array([0.0, 1.0, 10.0, 50.0, np.inf], dtype=np.float32)
+    L = np.int16(rng.integers(1, 5))
+    cl = cross_support(vals[rng.integers(0, 5, size=(h, w))], L, np.float32(30.0))
+    wr = int(rng.integers(1, 7))
+    cr = cross_support(vals[rng.integers(0, 5, size=(h, wr))], L, np.float32(30.0))
+    d = int(rng.integers(-3, 4))
+    cols = np.arange(w)
+    ok = (cols + d >= 0) & (cols + d < wr)
+    step3 = np.zeros((h + 1, w), dtype=np.float32)
+    step3[:h, :] = np.cumsum(rng.integers(0, 5, size=(h, w)), axis=0)
+    return {"step3": step3, "sum2": rng.integers(0, 7, size=(h, w)).astype(np.float32), "cross_left": cl, "cross_right": cr,
+            "range_col": cols[ok].astype(np.int64), "range_col_right": (cols[ok] + d).astype(np.int64)}
